@@ -302,7 +302,7 @@ EMPTY_ALIAS_TEMPS = ("&[asca::alias::Transformation; 0]", "[asca::alias::Transfo
 
 
 def flw2(ctx):
-    r = RuleResult("FLW-2", "deromanisers reach only word parsing, romanisers only rendering; no alias reaches rule application", floor=14)
+    r = RuleResult("FLW-2", "deromanisers reach only word parsing, romanisers only rendering; no alias reaches rule application", floor=12)
     lib = ctx.lib
     pa = ctx.fn(lib, "asca::parse_aliases")
     # colours of the returned tuple
@@ -848,10 +848,21 @@ def flw10(ctx):
                 continue
             m += 1
             conds = []
-            x = fpar.get(id(node))
+            x, child = fpar.get(id(node)), node
             while x is not None:
                 if x.get("e") == "if":
                     conds.append(x["cond"])
+                if x.get("e") == "block":
+                    # early exits before this point: `if <cond> { return .. }` as an earlier statement of an enclosing block
+                    items = list(x.get("stmts", [])) + ([x["tail"]] if x.get("tail") is not None else [])
+                    for st in items:
+                        if st is child or any(y is child for y in hirq.walk(st)):
+                            break
+                        s0 = st.get("a") if st.get("e") == "semi" else st
+                        s0 = hirq.strip(s0) if isinstance(s0, dict) else s0
+                        if isinstance(s0, dict) and s0.get("e") == "if" and s0.get("else") is None and any(y["e"] == "ret" for y in hirq.walk(s0["then"])):
+                            conds.append(s0["cond"])
+                child = x
                 x = fpar.get(id(x))
             tested = any((mm["e"] == "path" and (mm.get("local") == "state_index" or mm.get("hid") in derived)) or (
                 mm["e"] == "mcall" and mm["name"] == "len" and expr_name(mm["recv"]) == ("local", states_p)) for c in conds for mm in hirq.walk(c))
